@@ -129,20 +129,20 @@ def suite_fmt(ck):
                     ck.disagree('decl.pyclient.fmt_reference', {'name': n}, real[:2], ref)
                 else:
                     ck.agree('decl.pyclient.fmt_reference')
-    # fmt_obj = pprint.pformat(width=1) on string defaults: does it wrap (then emit() refuses the line)
+    # string defaults are printed with repr since the repair of c14-string-default-with-blank (pprint.pformat(width=1) wrapped
+    # them at blanks and emit() refused the text); `RouteView.pformat_wraps` still names that cause should it come back
     import pprint
     texts = ['', ' ', 'a', 'a b', 'ab ', ' ab', 'a\n', 'a\nb', 'a\n ', 'a\r\n', 'a\r\nb', 'a\r\n ', '\r\n', '\n\n', 'a\tb', 'a \t', 'é b',
              'two words', "it's\"q\"", 'x\x0by', 'x\x0c', 'x\x1cy', 'x\x1f', 'x\x1fy', 'a\rb', 'a\r']
     for _ in range(ck.scale(300, 3000)):
         texts.append(''.join(rng.choice('ab \t\n\r_é"\'\x0b\x1d') for _ in range(rng.randint(0, 6))))
-    rep = ck.driver([{'op': 'decl.pyclient.wraps', 'texts': texts}])[0]
-    for t, got in zip(texts, rep['out']):
+    for t in texts:
         real = '\n' in pprint.pformat(t, width=1)
         ck.case(('wraps', t))
-        if real == got == RouteView.pformat_wraps(t):
-            ck.agree('decl.pyclient.pformat_wraps')
+        if real == RouteView.pformat_wraps(t):
+            ck.agree('decl.pyclient.pformat_wraps_reference')
         else:
-            ck.disagree('decl.pyclient.pformat_wraps', {'text': t}, real, [got, RouteView.pformat_wraps(t)])
+            ck.disagree('decl.pyclient.pformat_wraps_reference', {'text': t}, real, RouteView.pformat_wraps(t))
     rep = ck.driver([{'op': 'decl.pyclient.keywords'}])[0]
     from stone.backends import python_helpers
     if sorted(rep['python']) == sorted(keyword.kwlist) and sorted(rep['reserved']) == sorted(python_helpers._reserved_keywords):
@@ -177,7 +177,7 @@ def ty_json(t):
 def lit_json(v):
     from stone.ir.data_types import TagRef
     if isinstance(v, TagRef):
-        return ['t', v.union_data_type.namespace.name, v.union_data_type.name, v.tag_name]
+        return ['t', ty_json(v.union_data_type), v.tag_name]      # the union, or the alias the field was declared with
     if isinstance(v, bool):
         return ['b', v]
     if isinstance(v, int):
@@ -688,7 +688,7 @@ def suite_module(ck, sessions):
         # how often the hypotheses of the theorems hold on what is explored
         for nsn, name, _p, nna, dwt in rep['ctors']:
             ck.hist('hypothesis.noNullableAlias', nna)
-            ck.hist('hypothesis.tagDefaultsDeclaredWithUnionItself', dwt)
+            ck.hist('hypothesis.defaultsWellTyped', dwt)
         ck.hist('hypothesis.nsPrefixFree', rep['nsPrefixFree'])
         for m in rep['methods']:
             ck.hist('hypothesis.hygienic', m['hygienic'])
@@ -1225,16 +1225,8 @@ def adapt_model(model, rng):
     dropped = {f.name for f in schema.fields if _base('stone_cfg', f.type) is None}
     schema.fields = [f for f in schema.fields if f.name != 'style' and f.name not in dropped] + \
         [sg.Field('style', sg.TypeRef('String'), default='rpc')]
-    # STEER: python_client still prints string defaults with pprint.pformat(width=1), which wraps at blanks; emit() then
-    # asserts and the whole spec has no client (listed finding c14-string-default-with-blank, seed c14_blankdefault_*).
-    # Most generated specs are kept clear of it so that the rest of the backend is reached.
-    for ns in model.namespaces:
-        for d in ns.defs:
-            if getattr(d, 'kind', None) in ('struct', 'struct_patch'):
-                for f in d.fields:
-                    if isinstance(f.default, str) and any(c.isspace() for c in f.default) and rng.random() < 0.9 and \
-                            _base(ns.name, f.type) == 'String' and 'pattern' not in f.type.kwargs:
-                        f.default = ''.join('_' if c.isspace() else c for c in f.default)
+    # (string defaults with blanks are no longer steered away from: python_client prints them with repr since the repair of
+    # c14-string-default-with-blank; seed c14_blankdefault_* is the regression case)
     for ns in model.namespaces:
         for d in ns.defs:
             if getattr(d, 'kind', None) != 'route':
